@@ -346,6 +346,66 @@ func (c *Ctx) ReconcileRoles() *Reconcile {
 		}
 	}
 	if r.UpdRev == nil || r.CurRev == nil || r.Status == nil {
+		// the status may be initialised by a small constructor helper: `status := newStatus(set, cur, upd, n)`.
+		// Its field stores are read in the helper, its revision parameters mapped back to the caller's arguments.
+		ast.Inspect(host.Decl.Body, func(n ast.Node) bool {
+			as, ok := n.(*ast.AssignStmt)
+			if !ok || len(as.Lhs) != 1 || len(as.Rhs) != 1 {
+				return true
+			}
+			call, ok := ast.Unparen(as.Rhs[0]).(*ast.CallExpr)
+			lid, isID := as.Lhs[0].(*ast.Ident)
+			if !ok || !isID || !isNamed(info.TypeOf(lid), load.APIPkg, "StatefulSetStatus") {
+				return true
+			}
+			h := gf.StaticCallee(info, call)
+			if h == nil {
+				return true
+			}
+			hfi := c.P.FuncInfoOf(h)
+			if hfi == nil || hfi.Pkg != host.Pkg {
+				return true
+			}
+			if ok, _, _ := c.E.InlineDecision(h); !ok {
+				return true
+			}
+			// parameter objects by position
+			var params []types.Object
+			for _, f := range hfi.Decl.Type.Params.List {
+				for _, pn := range f.Names {
+					params = append(params, info.ObjectOf(pn))
+				}
+			}
+			for _, fs := range fieldStores(info, hfi.Decl.Body) {
+				if !isNamed(fs.Owner, load.APIPkg, "StatefulSetStatus") {
+					continue
+				}
+				rs, ok := ast.Unparen(fs.Rhs).(*ast.SelectorExpr)
+				if !ok || rs.Sel.Name != "Name" {
+					continue
+				}
+				rid, ok := rs.X.(*ast.Ident)
+				if !ok || !isNamed(info.TypeOf(rid), "k8s.io/api/apps/v1", "ControllerRevision") {
+					continue
+				}
+				for k, po := range params {
+					if po == info.ObjectOf(rid) && k < len(call.Args) {
+						if aid, ok := ast.Unparen(call.Args[k]).(*ast.Ident); ok {
+							r.Status = info.ObjectOf(lid)
+							switch fs.Field {
+							case "UpdateRevision":
+								r.UpdRev = aid
+							case "CurrentRevision":
+								r.CurRev = aid
+							}
+						}
+					}
+				}
+			}
+			return true
+		})
+	}
+	if r.UpdRev == nil || r.CurRev == nil || r.Status == nil {
 		c.Fail("status.CurrentRevision / status.UpdateRevision are not assigned from ControllerRevision parameters' names")
 		return nil
 	}
